@@ -107,7 +107,7 @@ struct Explorer {
           // a different letter case is only a forgery when 0x20 randomisation protects the transmission (UDP)
           if (m == FG_CASEFLIP && (!(w.cfg->flags & ARES_FLAG_DNS0x20) || t.tcp)) continue;
           // a reply without cookie is only illegitimate once this server has proven cookie support
-          if (m == FG_NOCOOKIE || m == FG_BADCLIENTCOOKIE) {
+          if (m == FG_NOCOOKIE || m == FG_BADCLIENTCOOKIE || m == FG_NOCOOKIE_TC) {
             if (!t.q.has_cookie) continue;
             // the packet is matched by id against the CURRENT transmission of that query: if that one carries no cookie
             // (the server was meanwhile classified as not supporting them) no cookie rule applies and the packet is an
@@ -117,7 +117,8 @@ struct Explorer {
               if (o.q.ok && o.q.id == t.q.id && o.id > latest->id) latest = &o;
             if (!latest->q.has_cookie) continue;
           }
-          if (m == FG_NOCOOKIE) {
+          if (m == FG_NOCOOKIE || m == FG_NOCOOKIE_TC) {
+            if (m == FG_NOCOOKIE_TC && (t.tcp || !(w.cfg->flags & ARES_FLAG_IGNTC))) continue;
             bool proven = false;
             for (auto &p : w.packets)
               if (!p.forged && p.src_server == t.server && p.t_accept >= 0 && (p.kind == RK_CK_VALID || p.kind == RK_CK_VALID2)) proven = true;
